@@ -1,6 +1,6 @@
 SPECIFICATION Spec
 CONSTANTS
-  Inputs = {"zine", "simple3", "text"}
+  Inputs = {"zine", "simple3"}
   MaxLen = 1
   Emit = TRUE
 INVARIANTS TypeOK EmitCase
